@@ -74,17 +74,46 @@ pub enum Outcome {
 }
 
 pub fn run_sequence(codes: &[usize]) -> Outcome {
-    let r = catch_unwind(AssertUnwindSafe(|| run_sequence_inner(codes)));
+    run_sequence_on(codes, false)
+}
+
+/// `invalid`: the shared node is a node built by an earlier run of a bind closure (leaked through a
+/// side channel), i.e. it is invalid from the start. The lifecycle is the same, except that an
+/// in-use observer reads `ObservingInvalid`; sequences with subscriptions are not judged there.
+pub fn run_sequence_on(codes: &[usize], invalid: bool) -> Outcome {
+    let r = catch_unwind(AssertUnwindSafe(|| run_sequence_inner(codes, invalid)));
     match r {
         Ok(o) => o,
         Err(e) => Outcome::Violation(format!("panic: {}", crate::panic_message(e))),
     }
 }
 
-fn run_sequence_inner(codes: &[usize]) -> Outcome {
+fn run_sequence_inner(codes: &[usize], invalid: bool) -> Outcome {
     let st = IncrState::new();
     let v = st.var(0i64);
-    let n = v.map(|x| x + 1);
+    let mut keep: Vec<Box<dyn std::any::Any>> = vec![];
+    let n = if invalid {
+        if codes.iter().any(|c| (4..=7).contains(&(c / 2))) {
+            return Outcome::Pruned;
+        }
+        let sel = st.var(0i64);
+        let leak: Rc<RefCell<Vec<incremental::Incr<i64>>>> = Rc::new(RefCell::new(vec![]));
+        let (l2, vw) = (leak.clone(), v.watch());
+        let b = sel.bind(move |_| {
+            let m = vw.map(|x| x + 1);
+            l2.borrow_mut().push(m.clone());
+            m
+        });
+        let ob = b.observe();
+        st.stabilise();
+        sel.set(1);
+        st.stabilise();
+        let n = leak.borrow()[0].clone();
+        keep.push(Box::new((ob, b, sel, leak)));
+        n
+    } else {
+        v.map(|x| x + 1)
+    };
     let log: Rc<RefCell<Vec<(usize, Update<i64>)>>> = Rc::new(RefCell::new(vec![]));
     let mut next_sub = 0usize;
     let mut value_at_last_stab: Option<i64> = None;
@@ -228,6 +257,7 @@ fn run_sequence_inner(codes: &[usize]) -> Outcome {
                 let got = h.try_get_value();
                 let expected = match s.state {
                     MState::Created => Err(ObserverError::NeverStabilised),
+                    MState::InUse if invalid => Err(ObserverError::ObservingInvalid),
                     MState::InUse => Ok(s.last_value.unwrap()),
                     MState::Disallowed => Err(ObserverError::Disallowed),
                 };
@@ -246,6 +276,7 @@ fn run_sequence_inner(codes: &[usize]) -> Outcome {
     }
     drop(slots);
     drop(n);
+    drop(keep);
     drop(v);
     st.stabilise();
     drop(st);
@@ -266,7 +297,8 @@ pub fn run(len: usize, shard: u64, nshards: u64) -> J {
             codes.push((x % ALPHABET as u64) as usize);
             x /= ALPHABET as u64;
         }
-        match run_sequence(&codes) {
+        for invalid in [false, true] {
+        match run_sequence_on(&codes, invalid) {
             Outcome::Pruned => pruned += 1,
             Outcome::Ok { nontrivial: nt } => {
                 executed += 1;
@@ -282,11 +314,12 @@ pub fn run(len: usize, shard: u64, nshards: u64) -> J {
                 if violations.len() < 10 {
                     violations.push(J::obj(vec![
                         ("property", J::s("C10")),
-                        ("message", J::s(format!("{:?}: {msg}", codes.iter().map(|c| act(*c)).collect::<Vec<_>>()))),
-                        ("argv", J::Arr(vec![J::s("lifecycle-one"), J::s(codes.iter().map(|c| c.to_string()).collect::<Vec<_>>().join(","))])),
+                        ("message", J::s(format!("{:?}{}: {msg}", codes.iter().map(|c| act(*c)).collect::<Vec<_>>(), if invalid { " on an invalidated node" } else { "" }))),
+                        ("argv", J::Arr(vec![J::s("lifecycle-one"), J::s(codes.iter().map(|c| c.to_string()).collect::<Vec<_>>().join(",")), J::s(if invalid { "invalid-node" } else { "valid-node" })])),
                     ]));
                 }
             }
+        }
         }
         i += nshards;
     }
